@@ -85,9 +85,8 @@ def file_interface(col, cls, a, b, rec, tmp, r, subproc):
     for fn, nb in ((fa, a), (fb, b)):
         with open(fn, "w", encoding="utf8") as f:
             json.dump(disk_form(nb, r), f, ensure_ascii=r.random() < 0.5)
-    for fn in (fd, fg):
-        if os.path.exists(fn):
-            os.remove(fn)
+    # D.json and G.ipynb are deliberately NOT removed: a user re-uses the same output paths, and a longer file
+    # left over from the previous pair must be fully replaced
     case = {"A": a, "B": b, "class": cls, "record": rec, "file_interface": "subprocess" if subproc else "in-process"}
     try:
         if subproc:
